@@ -878,10 +878,10 @@ class Interp:
 
     def static_ref(self, st, key, ty):
         """pointer to the cell modelling a mutable static (one cell per static and path, contents arbitrary at first use)"""
-        cells = st.notes.setdefault('statics', {})
-        if key not in cells:
+        cells = st.notes.get('statics') or {}
+        if key not in cells or cells[key] not in st.heap:
             from .collections import MapM
-            m = re.search(r'HashMap<([^,]+), ([^,>]+)', ty)
+            m = re.search(r'(?:Hash|Dash|BTree)Map<([^,]+), ([^,>]+)', ty)
             if not m:
                 raise Unsupported('mutable static of type %s (only maps are modelled)' % ty)
             kt, vt = m.group(1).strip(), m.group(2).strip()
@@ -890,7 +890,9 @@ class Interp:
                 k = self.sym_value(kt, 'static_%s_key%d' % (key.replace(':', '_'), i), st)
                 v = self.sym_value(vt, 'static_%s_val%d' % (key.replace(':', '_'), i), st)
                 mm = mm.insert(k, v, z3.Bool('static_%s_has%d' % (key.replace(':', '_'), i)))
+            cells = dict(cells)  # never mutate a dict that sibling paths may share
             cells[key] = st.alloc(Opaque('Map', mm))
+            st.notes['statics'] = cells
             st.events.append(('static_read', key, ty))
         return Ptr(cells[key])
 
